@@ -27,7 +27,7 @@ for p in props:
     checks.append(c)
 m = {
     "version": 1,
-    "setup_cmd": "./coq/build.sh && /venv/bin/python tools/selftest.py",
+    "setup_cmd": "./coq/build.sh -k; /venv/bin/python tools/selftest.py",
     "hooks": {
         "guard": "ROPE_VERIF",
         "enable": "ROPE_VERIF=1 in the environment of ./check (set by the check itself); rope is pure Python and is imported from /repo's working tree",
